@@ -275,6 +275,7 @@ impl<'s> Printer<'s> {
                 self.opened += 1;
                 let me = self.opened;
                 let nm = match (name, self.style.group) {
+                    (Some(n), _) if n.is_empty() => Some(format!("n{}", me)),
                     (Some(n), _) => Some(n.clone()),
                     (None, GroupStyle::Plain) => None,
                     (None, _) => Some(group_name(me)),
